@@ -1155,6 +1155,11 @@ func verifyGitObjectAndAttestations(ctx context.Context, policy *State, target s
 
 	if options.trustedVerifier != "" {
 		for _, verifier := range verifiers {
+			if verifier.verifyExhaustively {
+				// The exhaustive verifier is part of every set of verifiers
+				// when global rules exist, it says nothing about this path
+				continue
+			}
 			if verifier.Name() == options.trustedVerifier {
 				return options.trustedVerifier, false, nil
 			}
@@ -1176,6 +1181,12 @@ func verifyGitObjectAndAttestations(ctx context.Context, policy *State, target s
 		// Verify tag object's signature as well
 		tagObjVerified := false
 		for _, verifier := range verifiers {
+			if verifier.verifyExhaustively && len(verifiers) > 1 {
+				// The exhaustive verifier accepts any set of signatures, it
+				// cannot stand in for the rules that protect the tag
+				continue
+			}
+
 			// explicitly not looking at the attestation
 			// that applies to the _push_
 			// thus, we also set threshold to 1
@@ -1318,17 +1329,21 @@ func verifyGitObjectAndAttestationsUsingVerifiers(ctx context.Context, verifiers
 		verifiedUsing                       string
 		acceptedPrincipalIDs                *set.Set[string]
 		rslEntrySignatureNeededForThreshold bool
+
+		// exhaustivelyVerifiedPrincipalIDs holds the principals counted by
+		// the exhaustive verifier, used for global rules
+		exhaustivelyVerifiedPrincipalIDs *set.Set[string]
 	)
 	for _, verifier := range verifiers {
 		trustedPrincipalIDs := verifier.TrustedPrincipalIDs()
 
 		usedPrincipalIDs, err := verifier.Verify(ctx, gitID, authorizationAttestation)
-		if err == nil {
+		if err == nil && !verifier.verifyExhaustively {
 			// We meet requirements just from the authorization attestation's sigs
 			verifiedUsing = verifier.Name()
 			acceptedPrincipalIDs = usedPrincipalIDs
 			break
-		} else if !errors.Is(err, ErrVerifierConditionsUnmet) {
+		} else if err != nil && !errors.Is(err, ErrVerifierConditionsUnmet) {
 			return "", nil, false, err
 		}
 
@@ -1374,6 +1389,21 @@ func verifyGitObjectAndAttestationsUsingVerifiers(ctx context.Context, verifiers
 			}
 		}
 
+		if verifier.verifyExhaustively {
+			// The exhaustive verifier only counts the principals who signed
+			// or approved, for the global rules. It accepts any set of
+			// signatures, so it cannot stand in for the rules that protect
+			// the path: those are still consulted
+			exhaustivelyVerifiedPrincipalIDs = usedPrincipalIDs
+			if len(verifiers) == 1 {
+				// No rule protects the path, only global rules apply
+				verifiedUsing = verifier.Name()
+				acceptedPrincipalIDs = usedPrincipalIDs
+				break
+			}
+			continue
+		}
+
 		// Get a list of used principals that are also trusted by the verifier
 		trustedUsedPrincipalIDs := trustedPrincipalIDs.Intersection(usedPrincipalIDs)
 		if trustedUsedPrincipalIDs.Len() >= verifier.Threshold() {
@@ -1397,6 +1427,9 @@ func verifyGitObjectAndAttestationsUsingVerifiers(ctx context.Context, verifiers
 	}
 
 	if verifiedUsing != "" {
+		if exhaustivelyVerifiedPrincipalIDs != nil {
+			acceptedPrincipalIDs.Extend(exhaustivelyVerifiedPrincipalIDs)
+		}
 		return verifiedUsing, acceptedPrincipalIDs, rslEntrySignatureNeededForThreshold, nil
 	}
 
